@@ -7,6 +7,7 @@
 #include <string>
 #include <cstdlib>
 #include <unistd.h>
+#include <sys/wait.h>
 #include <time.h>
 #include <occa.hpp>
 
@@ -32,10 +33,37 @@ int main(int argc, char **argv) {
     }
   }
   if (argc > 4) { usleep((useconds_t) std::atoi(argv[4])); }
+  if (how == "fork") {
+    // C09: builders that are fork()ed children of a process which has already used the cache (it built another
+    // kernel first): they inherit the parent's library state, in particular whatever generator names the staged
+    // temp files.  argv[4] = number of children.  Every child prints its own R line.
+    const int nproc = (argc > 4) ? std::atoi(argv[4]) : 4;
+    try {
+      occa::device dev0({{"mode", mode}});
+      occa::kernel k0 = dev0.buildKernelFromString(kernelSource(n + 1), "addN");
+    } catch (occa::exception &e) {
+      std::cout << "R ERR parent " << std::string(e.what()).substr(0, 200) << std::endl;
+      return 1;
+    }
+    std::cout.flush();
+    for (int c = 0; c < nproc; ++c) {
+      pid_t pid = fork();
+      if (pid == 0) {
+        char *args[] = {argv[0], argv[1], (char*) "string", argv[3], NULL};
+        // continue as an ordinary string builder in the forked child (no exec: the state is inherited)
+        argc = 4; argv = args;
+        goto child;
+      }
+    }
+    while (wait(NULL) > 0) {}
+    return 0;
+  }
+  child:
+  const std::string how2 = (how == "fork") ? "string" : how;
   try {
     occa::device dev({{"mode", mode}});
     occa::kernel k;
-    if (how == "string") {
+    if (how2 == "string") {
       k = dev.buildKernelFromString(kernelSource(n), "addN");
     } else {
       const char *f = std::getenv("C08_KERNEL_FILE");
